@@ -14,7 +14,10 @@
 //!    (independent reader `vf_kit::data::array_to_values`) as the value, and `try_from_array(arr, i)`
 //!    equals the scalar (`==` and same `data_type()`, so time zones / precision / key types count).
 //! 2. `iter_to_array([s..])`: same three checks row by row.
-//! 3. `a == b ⇒ hash(a) == hash(b)` over the scalars and their read-back copies.
+//! 3. `a == b ⇒ hash(a) == hash(b)` over the scalars and their read-back copies, and for values[0] rebuilt
+//!    under a sibling type (other time zone, dictionary key width, run-end width, decimal precision / scale,
+//!    string flavour, time unit); `==` must also be symmetric there. For leaf types `==` between different
+//!    logical values is itself a violation; for nested types that verdict is arrow's and only labelled.
 //! 4. For bool / integer / float / decimal / string / binary / date / time / timestamp / duration /
 //!    interval types only: `partial_cmp` is total (always `Some`), antisymmetric, transitive on the triple,
 //!    `a == b ⇔ cmp = Equal`, agrees with `arrow::compute::sort_to_indices(asc, nulls first)` of an
@@ -30,7 +33,33 @@
 //! arrow-rs 59 (list-view children with different null-mask representation); such a comparison is skipped
 //! and counted (label `eq-panicked(arrow)`), not reported by this check.
 //!
-//! Sensitivity probes: recorded at the end of this header after probing.
+//! Generator notes: 40 % leaf types, 20 % dictionary / run-end wrapped leaves, 40 % nested (depth 2, thorough 3).
+//! Run-end encoding is kept at the top of a type and nested dictionaries get ≥ 16-bit keys, because arrow's
+//! `concat` / `take` (used by `iter_to_array` / `to_array_of_size`) fail on those shapes by themselves.
+//! arrow-rs 59.2 defects met on the way (guarded, labelled, not reported as C34 violations): `list_view_equal` and
+//! `byte_view_equal` give wrong verdicts / panic (labels `nested-eq-wrong(arrow)`, `eq-panicked(arrow)`), list →
+//! fixed-size-list cast of a sliced array overflows (`cast:arrow-panicked`), union extraction / some casts depend on
+//! the physical layout of the input (`cast:arrow-layout-dependent`).
+//!
+//! Open findings (known_findings.json; regressions/C34/c34/*.json; excluded by `known_signature`):
+//! * ree-to-array-of-size-0 — `ScalarValue::RunEndEncoded(..).to_array_of_size(0)` errors (run end 0); proposed
+//!   repair fixes/C34-ree-scalar-to-empty-array.diff.
+//! * union-null-scalar-roundtrip — `Union(None, ..)` reads back as `Union(Some((id, NULL)), ..)` which is `!=`;
+//!   proposed repair fixes/C34-null-union-scalar-eq-hash.diff (all NULL union values equal, hash alike).
+//! * ree-nested-run-merge — `iter_to_array` of REE scalars merges different nested values into one run because the
+//!   run boundary test is arrow's (wrong) array equality; upstream defect, no DataFusion-side patch proposed.
+//!
+//! Sensitivity probes (tools/mutrun, `./check C34 quick`, patches in crates/vf-common/probes/):
+//! * c34-try-from-array-drops-tz.diff — `typed_cast_tz!` returns `None` for the time zone: VIOLATION after 37 cases
+//!   ("try_from_array(to_array_of_size(1) of TimestampSecond(.., UTC)) has type Timestamp(s) instead of ..").
+//! * c34-uint64-cmp-signed.diff — `partial_cmp` of UInt64 compares as i64: VIOLATION after 5 598 cases ("arrow sorts
+//!   UInt64(2^63-1) before UInt64(2^63) but partial_cmp says Greater").
+//! * c34-string-cast-fast-path-variant.diff — string→string fast path of `cast_to` builds `Utf8` for a `LargeUtf8`
+//!   target: VIOLATION after 412 cases (type of the cast result).
+//! * c34-dict-eq-ignores-key-type.diff — `==` of Dictionary scalars ignores the key type while `Hash` includes it
+//!   (DESIGN probe): VIOLATION after 5 cases (sibling-type Eq/Hash law).
+//! * (c12-dict-null-value-with-null-keys.diff in hash_utils.rs is also seen by C34 through the hash of nested scalars.)
+//! Quick: 60 000 cases, 8 shards, 7–20 s wall; thorough: 3 000 000 cases, 16 shards, nesting depth 3.
 use arrow::array::{Array, ArrayRef, AsArray};
 use arrow::compute::{CastOptions, SortOptions, can_cast_types, cast_with_options, sort_to_indices};
 use arrow::datatypes::{DataType, Field, IntervalDayTime, IntervalMonthDayNano, i256};
@@ -60,6 +89,10 @@ pub struct Case {
     pub len: u8,
     pub target: DType,
     pub safe: bool,
+    /// selects a sibling type (other time zone / dictionary key width / run-end width / decimal precision or
+    /// scale / string flavour) under which values[0] is built a second time for the cross-type Eq/Hash law
+    #[serde(default)]
+    pub sib: u8,
 }
 
 fn std_hash(s: &ScalarValue) -> u64 {
@@ -448,8 +481,12 @@ impl Property for C34 {
     }
     fn strategy(&self, tier: Tier) -> BoxedStrategy<Case> {
         let depth = tier.pick(2, 3);
-        data::dtype_strategy(&DTypeCfg::all(depth))
-            .prop_map(|dt| strip_inner_ree(dt, true))
+        let dts = prop_oneof![
+            4 => data::dtype_strategy(&DTypeCfg::leaves()),
+            2 => data::dtype_strategy(&DTypeCfg::all(0)),
+            4 => data::dtype_strategy(&DTypeCfg::all(depth)),
+        ];
+        dts.prop_map(|dt| strip_inner_ree(dt, true))
             .prop_flat_map(|dt| {
                 let vals = prop::collection::vec(data::value_strategy(&dt), 1..=3);
                 // a NULL union scalar exists as a ScalarValue although a union column has no NULL rows
@@ -460,9 +497,9 @@ impl Property for C34 {
                     }
                     v
                 });
-                (vals, data::encoding_strategy(&dt), prop_oneof![3 => 0u8..=3, 2 => 0u8..=17], target_strategy(), any::<bool>(), Just(dt))
+                (vals, data::encoding_strategy(&dt), prop_oneof![3 => 0u8..=3, 2 => 0u8..=17], target_strategy(), any::<bool>(), any::<u8>(), Just(dt))
             })
-            .prop_map(|(values, enc, len, target, safe, dtype)| Case { dtype, values, enc, len, target, safe })
+            .prop_map(|(values, enc, len, target, safe, sib, dtype)| Case { dtype, values, enc, len, target, safe, sib })
             .boxed()
     }
     fn budget(&self, tier: Tier) -> Budget {
@@ -628,6 +665,26 @@ impl Property for C34 {
                             return CaseResult::violation(format!("{:?} != itself", pool[i]));
                         }
                     }
+                }
+            }
+        }
+
+        // ---- 3b. the same value under a sibling type: == must be symmetric and imply equal hashes
+        if let Some(sdt) = sibling_of(dt, case.sib) {
+            if let Ok(sb) = scalar_of(&sdt, &case.values[0], &Encoding::plain(&sdt)) {
+                let sa = &scalars[0];
+                let ab = guarded_eq(sa, &sb);
+                let ba = guarded_eq(&sb, sa);
+                if ab.is_some() && ba.is_some() && ab != ba {
+                    return CaseResult::violation(format!("== is not symmetric on {sa:?} and {sb:?}: {ab:?} vs {ba:?}"));
+                }
+                if ab == Some(true) {
+                    labels.insert("sibling-eq".into());
+                    if std_hash(sa) != std_hash(&sb) {
+                        return CaseResult::violation(format!("{sa:?} == {sb:?} (sibling types {arrow_dt} / {}) but their hashes differ", sdt.to_arrow()));
+                    }
+                } else {
+                    labels.insert("sibling-ne".into());
                 }
             }
         }
@@ -838,6 +895,32 @@ fn strip_inner_ree(dt: DType, top: bool) -> DType {
         Union(fs, dense) => Union(fs.into_iter().map(|(i, n, d)| (i, n, strip_inner_ree(d, false))).collect(), dense),
         x => x,
     }
+}
+
+/// a type that differs from `dt` only in an attribute that `ScalarValue`'s Eq / Hash treat specially
+fn sibling_of(dt: &DType, k: u8) -> Option<DType> {
+    use DType::*;
+    let k = k as usize;
+    let other = match dt {
+        Timestamp(u, _) => Timestamp(*u, [None, Some("UTC"), Some("+05:30"), Some("America/New_York")][k % 4].map(String::from)),
+        Dictionary(_, v) => Dictionary([IntW::I8, IntW::I16, IntW::I32, IntW::I64, IntW::U8, IntW::U16, IntW::U32, IntW::U64][k % 8], v.clone()),
+        RunEndEncoded(_, v) => RunEndEncoded([IntW::I16, IntW::I32, IntW::I64][k % 3], v.clone()),
+        Decimal32(p, s) if *p < 9 && k % 2 == 0 => Decimal32(p + 1, *s),
+        Decimal32(p, s) if (*s as i16) < *p as i16 => Decimal32(*p, s + 1),
+        Decimal64(p, s) if *p < 18 && k % 2 == 0 => Decimal64(p + 1, *s),
+        Decimal64(p, s) if (*s as i16) < *p as i16 => Decimal64(*p, s + 1),
+        Decimal128(p, s) if *p < 38 && k % 2 == 0 => Decimal128(p + 1, *s),
+        Decimal128(p, s) if (*s as i16) < *p as i16 => Decimal128(*p, s + 1),
+        Decimal256(p, s) if *p < 76 && k % 2 == 0 => Decimal256(p + 1, *s),
+        Decimal256(p, s) if (*s as i16) < *p as i16 => Decimal256(*p, s + 1),
+        Utf8 | LargeUtf8 | Utf8View => [Utf8, LargeUtf8, Utf8View][k % 3].clone(),
+        Binary | LargeBinary | BinaryView => [Binary, LargeBinary, BinaryView][k % 3].clone(),
+        Time32(TUnit::S) => Time32(TUnit::Ms),
+        Time32(_) => Time32(TUnit::S),
+        Duration(_) => Duration([TUnit::S, TUnit::Ms, TUnit::Us, TUnit::Ns][k % 4]),
+        _ => return None,
+    };
+    if other == *dt { None } else { Some(other) }
 }
 
 fn reason_short(s: &str) -> String {
